@@ -137,10 +137,12 @@ def edErrName : Err → String
   | .notOnCurve => "errNotOnCurve" | e => e.str
 
 /-- what `Signature.SetBytes` answers according to the model's `sigParse`: (n, err, sig.R, sig.S). On `errNotOnCurve` the Go code
-reports `sizeFr` bytes read and has already overwritten `sig.R`; on every other error nothing was written. -/
-def edSigExpected {G : Type} (P : EdParams) (sq : Nat → Option Nat) (dec : Bytes → G) (R0 : G) (s0 buf : Bytes) : Int × Res × G × Bytes :=
+reports `sizeFr` bytes read and has already overwritten `sig.R`; when `sig.R.SetBytes` fails (no abscissa: `noSqrt`) its own error is
+handed on (n = 0) and `sig.R` is whatever the failed call left; on every other error nothing was written. -/
+def edSigExpected {G : Type} (P : EdParams) (sq : Nat → Option Nat) (dec : Bytes → G) (decErr : Bytes → Res) (R0 : G) (s0 buf : Bytes) : Int × Res × G × Bytes :=
   match P.sigParse sq buf with
   | .error .notOnCurve => ((P.size : Int), Res.err "errNotOnCurve", dec (buf.take P.size), s0)
+  | .error .noSqrt => ((0 : Int), decErr (buf.take P.size), dec (buf.take P.size), s0)
   | .error e => ((0 : Int), Res.err (edErrName e), R0, s0)
   | .ok (k, _, _) => ((k : Nat), Res.ok, dec (buf.take P.size), buf.drop P.size)
 
@@ -148,13 +150,17 @@ theorem decompress_take (P : EdParams) (sq : Nat → Option Nat) (buf : Bytes) :
     P.decompress sq (buf.take P.size) = P.decompress sq buf := by
   simp [EdParams.decompress, EdParams.yRaw, EdParams.signBit, List.take_take]
 
+theorem hasX_take (P : EdParams) (sq : Nat → Option Nat) (buf : Bytes) :
+    P.hasX sq (buf.take P.size) = P.hasX sq buf := by
+  simp [EdParams.hasX, EdParams.yRaw, List.take_take]
+
 theorem edSigSetBytesT_spec {G Fp : Type} [Add G] [Sub G] [Neg G] [Zero G] [SMul Int G] [Add Fp] [Sub Fp] [Mul Fp] [Inv Fp] [Zero Fp] [BEq Fp]
     (P : EdParams) (hsz : 0 < P.size) (sq : Nat → Option Nat) (edA edD edCofactor : Fp) (edBase : G)
     (dec : Bytes → G) (decErr : Bytes → Res) (onC : G → Bool) (φ : G → Nat × Nat)
     (hdec : ∀ b, φ (dec b) = P.decompress sq b) (honC : ∀ X, onC X = P.onCurve (φ X))
-    (herr : ∀ b : Bytes, b.length = P.size → decErr b = Res.ok) (R0 : G) (s0 buf : Bytes) (hs : s0.length = P.size) :
+    (herr : ∀ b : Bytes, b.length = P.size → (decErr b = Res.ok ↔ P.hasX sq b = true)) (R0 : G) (s0 buf : Bytes) (hs : s0.length = P.size) :
     edSigSetBytesT P.size (P.q : Int) edA edD edCofactor (P.order : Int) edBase dec decErr onC R0 s0 buf
-      = edSigExpected P sq dec R0 s0 buf := by
+      = edSigExpected P sq dec decErr R0 s0 buf := by
   unfold edSigSetBytesT edSigExpected EdParams.sigParse
   simp only [cmpInt_eq_zero, cmpInt_ne_neg_one, ofNat_bne]
   by_cases hl : buf.length = 2 * P.size
@@ -169,16 +175,22 @@ theorem edSigSetBytesT_spec {G Fp : Type} [Add G] [Sub G] [Neg G] [Zero G] [SMul
     have hR : P.onCurve (P.decompress sq buf) = onC (dec (buf.take P.size)) := by
       rw [honC, hdec, decompress_take]
     rw [e1, hy]
-    simp only [hl, ne_eq, not_true_eq_false, decide_false, Bool.false_eq_true, if_false, herr _ l1, bne_self_eq_false]
+    have hE := herr _ l1
+    rw [hasX_take] at hE
+    simp only [hl, ne_eq, not_true_eq_false, decide_false, Bool.false_eq_true, if_false]
     by_cases h1 : P.yRaw buf = 0
     · simp [h1, edErrName]
     · by_cases h2 : P.yRaw buf < P.q
       · by_cases h3 : beToNat (buf.drop P.size) = 0
         · simp [h1, h2, h3, edErrName]
         · by_cases h4 : beToNat (buf.drop P.size) < P.order
-          · by_cases h5 : onC (dec (buf.take P.size)) = true
-            · simp [h1, h2, h3, h4, h5, hR, copyBytes_eq, hs, l2]
-            · simp [h1, h2, h3, h4, h5, hR]
+          · by_cases h6 : P.hasX sq buf = true
+            · have h7 := hE.2 h6
+              by_cases h5 : onC (dec (buf.take P.size)) = true
+              · simp [h1, h2, h3, h4, h5, h6, h7, hR, copyBytes_eq, hs, l2]
+              · simp [h1, h2, h3, h4, h5, h6, h7, hR]
+            · have h7 : ¬ decErr (buf.take P.size) = Res.ok := fun c => h6 (hE.1 c)
+              simp [h1, h2, h3, h4, h6, h7]
           · simp [h1, h2, h3, h4, edErrName]
       · simp [h1, h2, edErrName]
   · simp [hl, edErrName]
@@ -190,7 +202,7 @@ theorem edSigParse_ok (P : EdParams) (sq : Nat → Option Nat) (buf : Bytes) (k 
       0 < P.yRaw buf ∧ P.yRaw buf < P.q ∧ 0 < s ∧ s < P.order ∧ P.onCurve R = true := by
   unfold EdParams.sigParse at h
   simp only [] at h
-  split_ifs at h with h1 h2 h3 h4 h5 h6
+  split_ifs at h with h1 h2 h3 h4 h5 h7 h6
   simp only [Except.ok.injEq, Prod.mk.injEq] at h
   obtain ⟨rfl, rfl, rfl⟩ := h
   simp at h1 h6
@@ -202,7 +214,7 @@ theorem edSigSetBytesT_ok {G Fp : Type} [Add G] [Sub G] [Neg G] [Zero G] [SMul I
     (P : EdParams) (hsz : 0 < P.size) (sq : Nat → Option Nat) (edA edD edCofactor : Fp) (edBase : G)
     (dec : Bytes → G) (decErr : Bytes → Res) (onC : G → Bool) (φ : G → Nat × Nat)
     (hdec : ∀ b, φ (dec b) = P.decompress sq b) (honC : ∀ X, onC X = P.onCurve (φ X))
-    (herr : ∀ b : Bytes, b.length = P.size → decErr b = Res.ok) (R0 : G) (s0 buf : Bytes) (hs : s0.length = P.size)
+    (herr : ∀ b : Bytes, b.length = P.size → (decErr b = Res.ok ↔ P.hasX sq b = true)) (R0 : G) (s0 buf : Bytes) (hs : s0.length = P.size)
     (k : Nat) (R : Nat × Nat) (s : Nat) (h : P.sigParse sq buf = .ok (k, R, s)) :
     edSigSetBytesT P.size (P.q : Int) edA edD edCofactor (P.order : Int) edBase dec decErr onC R0 s0 buf
         = (((2 * P.size : Nat) : Int), Res.ok, dec (buf.take P.size), buf.drop P.size) ∧
@@ -219,14 +231,28 @@ theorem edSigSetBytesT_err {G Fp : Type} [Add G] [Sub G] [Neg G] [Zero G] [SMul 
     (P : EdParams) (hsz : 0 < P.size) (sq : Nat → Option Nat) (edA edD edCofactor : Fp) (edBase : G)
     (dec : Bytes → G) (decErr : Bytes → Res) (onC : G → Bool) (φ : G → Nat × Nat)
     (hdec : ∀ b, φ (dec b) = P.decompress sq b) (honC : ∀ X, onC X = P.onCurve (φ X))
-    (herr : ∀ b : Bytes, b.length = P.size → decErr b = Res.ok) (R0 : G) (s0 buf : Bytes) (hs : s0.length = P.size)
+    (herr : ∀ b : Bytes, b.length = P.size → (decErr b = Res.ok ↔ P.hasX sq b = true)) (R0 : G) (s0 buf : Bytes) (hs : s0.length = P.size)
     (e : Err) (h : P.sigParse sq buf = .error e) :
-    (edSigSetBytesT P.size (P.q : Int) edA edD edCofactor (P.order : Int) edBase dec decErr onC R0 s0 buf).2.1 = Res.err (edErrName e) ∧
+    (e ≠ .noSqrt → (edSigSetBytesT P.size (P.q : Int) edA edD edCofactor (P.order : Int) edBase dec decErr onC R0 s0 buf).2.1 = Res.err (edErrName e)) ∧
+    (edSigSetBytesT P.size (P.q : Int) edA edD edCofactor (P.order : Int) edBase dec decErr onC R0 s0 buf).2.1 ≠ Res.ok ∧
     (edSigSetBytesT P.size (P.q : Int) edA edD edCofactor (P.order : Int) edBase dec decErr onC R0 s0 buf).2.2.2 = s0 ∧
-    (e ≠ .notOnCurve → edSigSetBytesT P.size (P.q : Int) edA edD edCofactor (P.order : Int) edBase dec decErr onC R0 s0 buf
+    (e ≠ .notOnCurve → e ≠ .noSqrt → edSigSetBytesT P.size (P.q : Int) edA edD edCofactor (P.order : Int) edBase dec decErr onC R0 s0 buf
         = ((0 : Int), Res.err (edErrName e), R0, s0)) := by
   rw [edSigSetBytesT_spec P hsz sq edA edD edCofactor edBase dec decErr onC φ hdec honC herr R0 s0 buf hs]
-  cases e <;> simp [edSigExpected, h, edErrName]
+  have hns : e = .noSqrt → decErr (buf.take P.size) ≠ Res.ok := by
+    intro he c
+    subst he
+    have hx : P.hasX sq buf = true := by
+      have := (herr (buf.take P.size) (by
+        have hl : buf.length = 2 * P.size := by
+          by_contra hne
+          unfold EdParams.sigParse at h; simp only [] at h; rw [if_pos hne] at h; simp at h
+        simp [hl]; omega)).1 c
+      rwa [hasX_take] at this
+    unfold EdParams.sigParse at h
+    simp only [] at h
+    split_ifs at h <;> simp_all
+  cases e <;> simp [edSigExpected, h, edErrName] <;> exact hns rfl
 
 /-! ### the model's dictionary (also the witness that the hypotheses above are satisfiable) -/
 
@@ -244,12 +270,17 @@ instance : Zero (EdG P sm) := ⟨⟨(0, 1)⟩⟩
 instance : SMul Int (EdG P sm) := ⟨fun k a => ⟨sm k.toNat a.p⟩⟩
 end dict
 
+/-- the error of `PointAffine.SetBytes` on a buffer of at least `size` bytes, according to the model -/
+def edDecErr (P : EdParams) (sq : Nat → Option Nat) (b : Bytes) : Res :=
+  if P.hasX sq b = true then Res.ok else Res.err "invalid compressed coordinate: square root doesn't exist"
+
 /-- generated `Signature.SetBytes` run with the model's dictionary = the model's `sigParse`, every input -/
 theorem edSigSetBytesT_model (P : EdParams) (hsz : 0 < P.size) (sm : Nat → Nat × Nat → Nat × Nat) (sq : Nat → Option Nat)
     (edA edD edCofactor : EF P.q) (edBase R0 : EdG P sm) (s0 buf : Bytes) (hs : s0.length = P.size) :
     edSigSetBytesT (G := EdG P sm) (Fp := EF P.q) P.size (P.q : Int) edA edD edCofactor (P.order : Int) edBase
-        (fun b => ⟨P.decompress sq b⟩) (fun _ => Res.ok) (fun X => P.onCurve X.p) R0 s0 buf
-      = edSigExpected P sq (fun b => (⟨P.decompress sq b⟩ : EdG P sm)) R0 s0 buf :=
-  edSigSetBytesT_spec P hsz sq edA edD edCofactor edBase _ _ _ (fun X => X.p) (fun _ => rfl) (fun _ => rfl) (fun _ _ => rfl) R0 s0 buf hs
+        (fun b => ⟨P.decompress sq b⟩) (edDecErr P sq) (fun X => P.onCurve X.p) R0 s0 buf
+      = edSigExpected P sq (fun b => (⟨P.decompress sq b⟩ : EdG P sm)) (edDecErr P sq) R0 s0 buf :=
+  edSigSetBytesT_spec P hsz sq edA edD edCofactor edBase _ _ _ (fun X => X.p) (fun _ => rfl) (fun _ => rfl)
+    (fun b _ => by unfold edDecErr; split_ifs with c <;> simp [c]) R0 s0 buf hs
 
 end GV.SigSignGen
